@@ -129,167 +129,205 @@ def keys(ctx: Ctx) -> List[Ob]:
     return obs
 
 
+def _stmt_of(m, node: ast.AST) -> Optional[ast.stmt]:
+    while node is not None and not isinstance(node, ast.stmt):
+        node = m.parent_of(node)
+    return node
+
+
+def _in(node: ast.AST, root: ast.AST) -> bool:
+    return any(node is x for x in ast.walk(root))
+
+
 @rule("FMT", ["C05", "C12", "C14", "C17", "C19"], floor=20, section="3.11")
 def fmt(ctx: Ctx) -> List[Ob]:
     """layout: 1-based entry indices with 0 for the root in writer and both readers; the maps written to the header are the ones applied; clone references only under equal kind and keyed like is_clone(); key/value compression mirrored; load() validates the header; save zips unless compression is False and flushes the text wrapper"""
+    from .util import always_before, not_after, cond_texts, exit_cases, find_cases, find_under, path_conds, reaching_values, resolve_expr, split_cond, stmts_before
+
     obs: List[Ob] = []
     m = ctx.model
     env = ctx.env
 
     def O(props, f, label, ok, why="", node=None):
-        obs.append(ctx.ob("FMT", props, f, label, node, bool(ok), "" if ok else why))
+        """ok: True discharged / False violated / None undecided (anchor shape not recognised)"""
+        obs.append(ctx.tri("FMT", props, f, label, node, ok, why))
+
+    def RN(f, at, e, keep=()) -> str:
+        return norm(resolve_expr(ctx, f, at, e, keep=keep))
 
     # ---------------------------------------------------------------- writer
     w = m.func("Node.to_list_iter")
-    en = [n for n in iter_own(w.node) if isinstance(n, ast.For) and match("enumerate($$x, $$s)", n.iter) is not None or
-          (isinstance(n, ast.For) and match("enumerate($$x)", n.iter) is not None)]
-    e = match("for $i, $n in enumerate(self, 1):\n    ...", en[0]) if len(en) == 1 else None
-    O(["C12", "C05"], w, "writer numbers entries with enumerate(self, 1) in pre-order", e is not None,
+    en = [n for n in iter_own(w.node) if isinstance(n, ast.For) and isinstance(n.iter, ast.Call) and norm(n.iter.func) == "enumerate"]
+    e = None
+    if len(en) == 1:
+        e = match("for $i, $n in enumerate(self, 1):\n    ...", en[0]) or match("for $i, $n in enumerate(self, start=1):\n    ...", en[0])
+    O(["C12", "C05"], w, "writer numbers entries with enumerate(self, 1) in pre-order", (e is not None) if len(en) == 1 else None,
       "entries are numbered from 1 in the default (pre-order) iteration; 0 is reserved for the root", en[0] if en else None)
     pm = one("$pm = {self._node_id: $$z}", w.node)
-    O(["C12", "C05"], w, "writer maps the start node to parent index 0", pm is not None and norm(pm[1]["$$z"]) == "0", "top-level entries must name parent 0")
+    O(["C12", "C05"], w, "writer maps the start node to parent index 0", None if pm is None else norm(pm[1]["$$z"]) == "0", "top-level entries must name parent 0")
     if e is not None and pm is not None:
         lp = en[0]
         iv, nv, pmv = e["$i"], e["$n"], pm[1]["$pm"]
         B = {"$i": iv, "$n": nv, "$pm": pmv}
+        inside = {id(x) for x in ast.walk(lp)}
+
+        def loop_conds(node):
+            return [(a_, p_) for a_, p_ in path_conds(ctx, w, node) if id(getattr(a_, "_orig", a_)) in inside]
+
         # parent index recorded under the node's id, for nodes with children
-        st = one("$pm[$$k] = $i", lp, B)
-        okk = st is not None
-        if okk:
-            k = st[1]["$$k"]
-            okk = norm(k) == f"{nv}._node_id" or (isinstance(k, ast.Name) and has(f"{k.id} = {nv}._node_id", lp))
-        O(["C12", "C05"], w, "a parent's own entry index is recorded under its node_id", okk,
+        recs = [(n_, e_) for n_, e_ in find("$pm[$$k] = $i", lp, B) if RN(w, n_, e_["$$k"]) == f"{nv}._node_id"]
+        O(["C12", "C05"], w, "a parent's own entry index is recorded under its node_id", len(recs) == 1 if recs or find("$pm[$$k] = $$v", lp, B) else None,
           "children look their parent up by node_id and must find the parent's entry position")
-        # ... on every iteration path: the recording statement comes before any `continue`
+        st = recs[0] if len(recs) == 1 else None
         if st is not None:
-            top = [s_ for s_ in lp.body if any(x is st[0] for x in ast.walk(s_))]
-            conts = [i for i, s_ in enumerate(lp.body) if any(isinstance(x, ast.Continue) for x in ast.walk(s_))]
-            okp = bool(top) and (not conts or lp.body.index(top[0]) < min(conts))
+            conts = [x for x in ast.walk(lp) if isinstance(x, ast.Continue)]
+            extra = [t for t in cond_texts(loop_conds(st[0])) if t not in (f"{nv}._children", f"{nv}.children", f"{nv}.has_children()")]
+            # the statement that holds the recording runs on every path to a `continue` of the same round
+            top_st = [s_ for s_ in lp.body if _in(st[0], s_)]
+            anchor = (top_st[0].test if isinstance(top_st[0], ast.If) else top_st[0]) if top_st else st[0]
+            okp = not extra and all(always_before(ctx, w, anchor, c_) for c_ in conts)
             O(["C12", "C05"], w, "the index of a parent is recorded before any early `continue` (also for clones that have children)", okp,
               "a later occurrence of a clone that has children of its own would never record its index: save() fails with KeyError / children get a wrong parent")
-        lk = one("$x = $pm[$$k]", lp, B)
-        okl = lk is not None
-        if okl:
-            k = lk[1]["$$k"]
-            okl = norm(k) == f"{nv}._parent._node_id" or (isinstance(k, ast.Name) and has(f"{k.id} = {nv}._parent._node_id", lp))
+        # every yielded entry names its parent's recorded index
+        ys = [x for x in ast.walk(lp) if isinstance(x, ast.Yield) and isinstance(x.value, ast.Tuple) and len(x.value.elts) == 2]
+        all_y = [x for x in iter_own(w.node) if isinstance(x, (ast.Yield, ast.YieldFrom))]
+        okl = None
+        if ys and len(ys) == len(all_y):
+            okl = all(RN(w, y, y.value.elts[0], keep=[pmv]) == f"{pmv}[{nv}._parent._node_id]" for y in ys)
         O(["C12", "C05"], w, "each entry names its parent's recorded index", okl, "the parent reference must be the index recorded for node._parent")
-        if st is not None and lk is not None:
-            O(["C12"], w, "the index is recorded before it can be looked up (pre-order: parents first)", st[0].lineno < lk[0].lineno)
+        if st is not None and ys:
+            lks = [x for x in ast.walk(lp) if isinstance(x, ast.Subscript) and isinstance(x.ctx, ast.Load) and norm(x.value) == pmv]
+            O(["C12"], w, "the index is recorded before it can be looked up (pre-order: parents first)", all(not_after(ctx, w, st[0], x) or _stmt_of(m, x) is st[0] for x in lks) if lks else None)
         # clone references
         cm = one("$ci, $ck = $cm.get($$key, (None, None))", lp)
-        okc = cm is not None
-        if okc:
+        if cm is not None:
             C = {**B, "$ci": cm[1]["$ci"], "$ck": cm[1]["$ck"], "$cm": cm[1]["$cm"]}
-            ref = find("yield ($x, $ci)", lp, C)
-            okc = len(ref) == 1
-            blk = m.parent_of(m.parent_of(ref[0][0])) if okc else None
-            okc = okc and isinstance(blk, ast.If) and (match("$nk == $ck", blk.test, C) is not None or match("$ck == $nk", blk.test, C) is not None)
+            ci, ck, cmv = cm[1]["$ci"], cm[1]["$ck"], cm[1]["$cm"]
+            ref = [y for y in ys if norm(y.value.elts[1]) == ci]
+            okc = None
+            if len(ref) == 1:
+                pcs = loop_conds(ref[0])
+                kinds = [a_ for a_, p_ in pcs if p_ and isinstance(a_, ast.Compare) and len(a_.ops) == 1 and ck in (norm(a_.left), norm(a_.comparators[0]))]
+                okc = len(kinds) == 1 and isinstance(kinds[0].ops[0], ast.Eq) and any(
+                    RN(w, ref[0], side) in (f"getattr({nv}, 'kind', None)", f"{nv}.kind", f"{nv}._kind") for side in (kinds[0].left, kinds[0].comparators[0]))
+                okc = okc and any(p_ and norm(a_) == ci for a_, p_ in pcs)
             O(["C12", "C05"], w, "a clone is stored as a bare index only when its kind equals (==) the first occurrence's", okc,
               "clones of differing kind must be written out in full; kinds are compared by value")
-            okc2 = isinstance(blk, ast.If) and any(isinstance(x, ast.Continue) for x in blk.body)
-            O(["C12"], w, "after a clone reference the entry is not written a second time", okc2, "missing `continue`")
-            note = one("$cm[$$key2] = ($i, $nk)", lp, C)
-            O(["C12", "C05"], w, "the first occurrence of a clone records (its index, its kind)", note is not None, "later occurrences refer to this index")
-            if note is not None:
-                pblk = m.parent_of(note[0])
-                O(["C12", "C05"], w, "only clones are noted (elif node.is_clone())", isinstance(pblk, ast.If) and has(f"{nv}.is_clone()", pblk.test), "")
-            key = cm[1]["$$key"]
-            okk = norm(key) in (f"{nv}._data_id", f"{nv}.data_id")
-            if not okk and isinstance(key, ast.Name):
-                vals = find(f"{key.id} = $$v", lp)
-                okk = len(vals) == 1 and norm(vals[0][1]["$$v"]) in (f"{nv}._data_id", f"{nv}.data_id")
-            O(["C05", "C12"], w, "clone references are keyed by node._data_id (like is_clone())", okk,
-              f"the clone map is keyed by `{norm(key)}`, not by the node's data_id: nodes that share data but carry different explicit data_ids are "
-              "merged into one clone group on reload (and is_clone() groups by _data_id)")
+            if len(ref) == 1:
+                full = [y for y in ys if y is not ref[0]]
+                # after a clone reference the same node is not written again: no path from the reference to a full entry in the same round
+                cfg = ctx.cfg(w)
+                nr = cfg.stmt_node_of(ref[0], m.parent_of)
+                hdr = cfg.node_for(lp)
+                again = None
+                for y in full:
+                    ny = cfg.stmt_node_of(y, m.parent_of)
+                    if nr is not None and ny is not None and cfg.find_path(nr, ny, avoid=lambda n_, h=hdr: n_ is h, strict=True) is not None:
+                        again = y
+                O(["C12"], w, "after a clone reference the entry is not written a second time", again is None, "missing `continue`")
+            notes = [(n_, e_) for n_, e_ in find("$cm[$$key2] = ($i, $$nk)", lp, C)]
+            okn = None
+            if len(notes) == 1:
+                okn = RN(w, notes[0][0], notes[0][1]["$$nk"]) in (f"getattr({nv}, 'kind', None)", f"{nv}.kind", f"{nv}._kind")
+            elif find("$cm[$$key2] = $$v", lp, C):
+                okn = False
+            O(["C12", "C05"], w, "the first occurrence of a clone records (its index, its kind)", okn, "later occurrences refer to this index")
+            if len(notes) == 1:
+                pcs = loop_conds(notes[0][0])
+                okn2 = any(p_ and norm(a_) == f"{nv}.is_clone()" for a_, p_ in pcs) and any((not p_) and norm(a_) == ci for a_, p_ in pcs)
+                O(["C12", "C05"], w, "only clones are noted (elif node.is_clone())", okn2, "")
+                k1, k2 = RN(w, cm[0], cm[1]["$$key"]), RN(w, notes[0][0], notes[0][1]["$$key2"])
+                okk = k1 in (f"{nv}._data_id", f"{nv}.data_id") and k2 in (f"{nv}._data_id", f"{nv}.data_id")
+                O(["C05", "C12"], w, "clone references are keyed by node._data_id (like is_clone())", okk,
+                  f"the clone map is keyed by `{k1}` / `{k2}`, not by the node's data_id: nodes that share data but carry different explicit data_ids are "
+                  "merged into one clone group on reload (and is_clone() groups by _data_id)")
         else:
-            O(["C12", "C05"], w, "clone map lookup found", False, "clone reference shape not recognised")
-        mp = find("call_mapper($$a, $$b, $$c)", lp)
+            O(["C12", "C05"], w, "clone map lookup found", None, "clone reference shape not recognised")
+        mp = [c for c in ast.walk(lp) if isinstance(c, ast.Call) and norm(c.func) == "call_mapper"]
         cp = [x for x in ast.walk(lp) if isinstance(x, ast.Call) and norm(x.func).endswith("_compress_entry")]
-        okm = len(mp) == 1 and len(cp) == 1 and mp[0][0].lineno < cp[0].lineno and norm(cp[0].args[1]) == "key_map"
+        okm = None
+        if len(mp) == 1 and len(cp) == 1:
+            okm = not_after(ctx, w, mp[0], cp[0]) and norm(cp[0].args[1]) == "key_map"
         O(["C05", "C12"], w, "mapper first, then key/value compression with the caller's maps", okm,
           "keys are shortened exactly as the header's maps declare, after the mapper produced them")
-        if cp:
-            g = m.parent_of(m.parent_of(cp[0]))
-            okg = not isinstance(g, ast.If) or ({"key_map", "value_map"} <= {x.id for x in ast.walk(g.test) if isinstance(x, ast.Name)}
-                                                  and isinstance(g.test, ast.BoolOp) and isinstance(g.test.op, ast.Or))
+        if len(cp) == 1:
+            gates = [a_ for a_, p_ in loop_conds(cp[0]) if any(isinstance(x, ast.Name) and x.id in ("key_map", "value_map") for x in ast.walk(a_))]
+            okg = not gates or (len(gates) == 1 and isinstance(gates[0], ast.BoolOp) and isinstance(gates[0].op, ast.Or)
+                                and {"key_map", "value_map"} <= {x.id for x in ast.walk(gates[0]) if isinstance(x, ast.Name)})
             O(["C05", "C12"], w, "entries are compressed when a key map OR a value map is in use", okg,
               "with key_map off and a value map on, the header declares $value_map but the entries keep the long values")
-            vd = one("{$k: {$v: $j for $j, $v in enumerate($a)} for $k, $a in value_map.items()}", w.node)
-            tgt = None
-            if vd is not None:
-                pa_ = m.parent_of(vd[0])
-                if isinstance(pa_, ast.AnnAssign):
-                    tgt = norm(pa_.target)
-                elif isinstance(pa_, ast.Assign):
-                    tgt = norm(pa_.targets[0])
-            O(["C05", "C12"], w, "value lists are turned into value->index dicts (index = position in the header's list)",
-              tgt is not None and norm(cp[0].args[2]) == tgt, "value indices must be positions in the list written to the header")
+            vds = find("{$k: {$v: $j for $j, $v in enumerate($a)} for $k, $a in value_map.items()}", w.node)
+            okv = None
+            if len(vds) == 1 and len(cp[0].args) >= 3:
+                vals = reaching_values(ctx, w, cp[0], cp[0].args[2])
+                okv = any(v_ is vds[0][0] for v_ in vals)
+            O(["C05", "C12"], w, "value lists are turned into value->index dicts (index = position in the header's list)", okv,
+              "value indices must be positions in the list written to the header")
     # --------------------------------------------------------------- readers
     for q in ("Tree._from_list", "TypedTree._from_list"):
         r = m.func(q)
         en = [n for n in iter_own(r.node) if isinstance(n, ast.For) and isinstance(n.iter, ast.Call) and norm(n.iter.func) == "enumerate"]
-        e = match("for $i, ($p, $d) in enumerate(obj, 1):\n    ...", en[0]) if len(en) == 1 else None
-        O(["C12", "C05"], r, "reader numbers entries from 1", e is not None, "reader and writer must count alike", en[0] if en else None)
+        e = None
+        if len(en) == 1:
+            e = match("for $i, ($p, $d) in enumerate(obj, 1):\n    ...", en[0]) or match("for $i, ($p, $d) in enumerate(obj, start=1):\n    ...", en[0])
+        O(["C12", "C05"], r, "reader numbers entries from 1", (e is not None) if len(en) == 1 else None, "reader and writer must count alike", en[0] if en else None)
         nm = None
         for n in iter_own(r.node):
             if isinstance(n, (ast.Assign, ast.AnnAssign)) and n.value is not None:
                 e2 = match("{0: $t._root}", n.value) or match("{0: $t.system_root}", n.value)
                 if e2 is not None:
                     nm = norm(n.target if isinstance(n, ast.AnnAssign) else n.targets[0])
-        O(["C12", "C05"], r, "reader maps index 0 to the root", nm is not None, "parent index 0 is the (invisible) root")
+        O(["C12", "C05"], r, "reader maps index 0 to the root", (nm is not None) if any(isinstance(n, ast.Dict) for n in ast.walk(r.node)) else None, "parent index 0 is the (invisible) root")
         if e is None or nm is None:
             continue
         lp = en[0]
         iv, pv, dv = e["$i"], e["$p"], e["$d"]
-        last = lp.body[-1]
-        el = match(f"{nm}[{iv}] = $n", last)
-        O(["C12", "C05"], r, "every created node is recorded under its entry index", el is not None, "later entries refer to earlier ones by position")
-        if el is not None:
-            # in every branch the node that was just created is what gets recorded
-            adds_ = [c for c in ast.walk(lp) if isinstance(c, ast.Call) and isinstance(c.func, ast.Attribute) and c.func.attr in ("add", "add_child")]
-            bound = [c for c in adds_ if isinstance(m.parent_of(c), ast.Assign) and norm(m.parent_of(c).targets[0]) == el["$n"]]
-            O(["C12", "C05"], r, "the node recorded under the entry index is the one created for this entry (str, clone reference and dict entries)",
-              len(adds_) == 3 and len(bound) == 3, "children of a repeated occurrence would be attached below the first occurrence")
-        par = one(f"$par = {nm}[{pv}]", lp)
-        O(["C12", "C05"], r, "the parent is looked up by the entry's parent index", par is not None, "")
-        if par is None:
-            continue
-        pa = par[1]["$par"]
-        chain = [s_ for s_ in lp.body if isinstance(s_, ast.If)]
-        tests = {}
-        if chain:
-            from .trav import _if_chain
-            tests = {(norm(t) if t is not None else "else"): b for t, b in _if_chain(chain[0])}
-        O(["C12"], r, "reader handles str, int (clone reference) and dict entries", {f"isinstance({dv}, str)", f"isinstance({dv}, int)", "else"} <= set(tests),
+        recs = find(f"{nm}[{iv}] = $$n", lp)
+        adds_ = [c for c in ast.walk(lp) if isinstance(c, ast.Call) and isinstance(c.func, ast.Attribute) and c.func.attr in ("add", "add_child", "append_child")]
+        okr = None
+        if len(recs) == 1 and adds_:
+            # whatever reaches the recording statement was created by an add() of this round
+            vals = reaching_values(ctx, r, recs[0][0], recs[0][1]["$$n"])
+            okr = len(vals) == len(adds_) and all(any(v_ is c for c in adds_) for v_ in vals) and not path_conds(ctx, r, recs[0][0])[0:0] and not [
+                a_ for a_, p_ in path_conds(ctx, r, recs[0][0]) if _in(getattr(a_, "_orig", a_), lp)]
+        elif not recs:
+            okr = False
+        O(["C12", "C05"], r, "every created node is recorded under its entry index: the one created for this entry (str, clone reference and dict entries)", okr,
+          "later entries refer to earlier ones by position; children of a repeated occurrence would be attached below the first occurrence")
+        # per entry kind: what is added, below which parent
+        by_kind: Dict[str, List[ast.Call]] = {}
+        for c in adds_:
+            ts = cond_texts([(a_, p_) for a_, p_ in path_conds(ctx, r, c) if _in(getattr(a_, "_orig", a_), lp)])
+            kind = "str" if f"isinstance({dv}, str)" in ts else ("int" if f"isinstance({dv}, int)" in ts else ("dict" if f"not isinstance({dv}, int)" in ts and f"not isinstance({dv}, str)" in ts else "?" + ",".join(sorted(ts))))
+            by_kind.setdefault(kind, []).append(c)
+        O(["C12"], r, "reader handles str, int (clone reference) and dict entries", {"str", "int", "dict"} <= set(by_kind) if adds_ else None,
           "entries of the documented layout are not handled")
-        ib = tests.get(f"isinstance({dv}, int)")
-        if ib is not None:
-            fc = one(f"$fc = {nm}[{dv}]", ib)
-            okr = fc is not None
-            if okr:
-                adds = [c for c in ast.walk(ast.Module(body=ib, type_ignores=[])) if isinstance(c, ast.Call) and isinstance(c.func, ast.Attribute)
-                        and c.func.attr in ("add", "add_child") and norm(c.func.value) == pa]
-                okr = len(adds) == 1 and norm(adds[0].args[0]) == fc[1]["$fc"] and any(k.arg == "data_id" and norm(k.value) in (f"{fc[1]['$fc']}.data_id", f"{fc[1]['$fc']}._data_id") for k in adds[0].keywords)
-                O(["C12", "C05"], r, "a bare index re-creates a clone of the node at that position, under its data_id", okr,
-                  "clone references must resolve through the index map and keep the data_id")
-                if q.startswith("Typed"):
-                    okk = len(adds) == 1 and any(k.arg == "kind" and norm(k.value) in (f"{fc[1]['$fc']}.kind", f"{fc[1]['$fc']}._kind") for k in adds[0].keywords)
-                    O(["C05"], r, "a typed clone reference keeps the first occurrence's kind", okk, "kind lost on reload")
-        eb = tests.get("else")
-        if eb is not None:
-            mod = ast.Module(body=eb, type_ignores=[])
-            cm = [c for c in ast.walk(mod) if isinstance(c, ast.Call) and norm(c.func) == "call_mapper"]
-            reads = [c for c in ast.walk(mod) if isinstance(c, ast.Call) and isinstance(c.func, ast.Attribute) and c.func.attr == "get"
-                     and norm(c.func.value) == dv and c.args and isinstance(c.args[0], ast.Constant)]
-            okm = len(cm) == 1 and bool(reads) and all(x.lineno < cm[0].lineno for x in reads)
+        okp = None if not adds_ else all(RN(r, c, c.func.value, keep=[nm]) == f"{nm}[{pv}]" for c in adds_)
+        O(["C12", "C05"], r, "the parent is looked up by the entry's parent index", okp, "every entry is added below the node recorded for its parent index")
+        for c in by_kind.get("int", []):
+            src = RN(r, c, c.args[0], keep=[nm]) if c.args else "?"
+            kw = {k.arg: RN(r, c, k.value, keep=[nm]) for k in c.keywords}
+            okc = src == f"{nm}[{dv}]" and kw.get("data_id") in (f"{nm}[{dv}].data_id", f"{nm}[{dv}]._data_id")
+            O(["C12", "C05"], r, "a bare index re-creates a clone of the node at that position, under its data_id", okc,
+              "clone references must resolve through the index map and keep the data_id")
+            if q.startswith("Typed"):
+                O(["C05"], r, "a typed clone reference keeps the first occurrence's kind", kw.get("kind") in (f"{nm}[{dv}].kind", f"{nm}[{dv}]._kind"), "kind lost on reload")
+        for c in by_kind.get("dict", []):
+            cmc = [x for x in ast.walk(lp) if isinstance(x, ast.Call) and norm(x.func) == "call_mapper"]
+            reads = [x for x in ast.walk(lp) if isinstance(x, ast.Call) and isinstance(x.func, ast.Attribute) and x.func.attr == "get"
+                     and norm(x.func.value) == dv and x.args and isinstance(x.args[0], ast.Constant)]
+            okm = None
+            if len(cmc) == 1 and reads:
+                okm = all(not_after(ctx, r, x, cmc[0]) for x in reads)
             O(["C12", "C05"], r, "data_id (and kind) are read from the entry before the mapper gets the dict", okm,
               "a mapper may consume (pop) keys of the entry: ids and kinds read afterwards fall back to the defaults")
             want = {"data_id"} | ({"kind"} if q.startswith("Typed") else set())
-            got = {c.args[0].value for c in reads}
+            got = {x.args[0].value for x in reads}
             O(["C12", "C05"], r, f"reader takes {sorted(want)} from dict entries", want <= got, "stored ids/kinds ignored")
-            adds = [c for c in ast.walk(mod) if isinstance(c, ast.Call) and isinstance(c.func, ast.Attribute) and c.func.attr in ("add", "add_child") and norm(c.func.value) == pa]
-            okd = len(adds) == 1 and any(k.arg == "data_id" for k in adds[0].keywords) and (not q.startswith("Typed") or any(k.arg == "kind" for k in adds[0].keywords))
-            O(["C12", "C05"], r, "the node is added below the looked-up parent with the stored data_id (and kind)", okd, "")
+            kw = {k.arg: RN(r, c, k.value, keep=[nm]) for k in c.keywords}
+            okd = kw.get("data_id") == f"{dv}.get('data_id')" and (not q.startswith("Typed") or (kw.get("kind") or "").startswith(f"{dv}.get('kind'")) \
+                and len(cmc) == 1 and any(cmc[0] is v_ or _in(cmc[0], v_) for v_ in reaching_values(ctx, r, c, c.args[0]) if c.args)
+            O(["C12", "C05"], r, "the node is added below the looked-up parent with the mapper's result, the stored data_id (and kind)", okd, "")
     # ------------------------------------------------------------------ save
     sv = m.func("Tree.save")
     hd = None
@@ -302,82 +340,148 @@ def fmt(ctx: Ctx) -> List[Ob]:
     calls = [c for c in env.calls_in[sv] if isinstance(c.func, ast.Attribute) and c.func.attr == "to_list_iter"]
     for key, var in (("$key_map", "key_map"), ("$value_map", "value_map")):
         st = find(f"{hd}['{key}'] = $$v", sv.node)
-        ok = len(st) == 1 and norm(st[0][1]["$$v"]) == var
-        ok = ok and len(calls) == 1 and any(k.arg == var and norm(k.value) == var for k in calls[0].keywords)
+        ok = None
+        if len(st) == 1 and len(calls) == 1:
+            ok = norm(st[0][1]["$$v"]) == var and any(k.arg == var and norm(k.value) == var for k in calls[0].keywords)
         O(["C12", "C05"], sv, f"the {var} written to the header is the one applied to the entries", ok, "a header map that differs from the applied one makes the file unreadable")
-        p_ = m.parent_of(st[0][0]) if st else None
-        O(["C12"], sv, f"header['{key}'] only when the map is in use", isinstance(p_, ast.If) and norm(p_.test) == var)
+        if len(st) == 1:
+            ts = cond_texts([(a_, p_) for a_, p_ in path_conds(ctx, sv, st[0][0]) if var in norm(a_)])
+            O(["C12"], sv, f"header['{key}'] only when the map is in use", ts == {var})
     for var, dflt in (("key_map", "self.DEFAULT_KEY_MAP"), ("value_map", "self.DEFAULT_VALUE_MAP")):
-        ok = has(f"if {var} is True:\n    {var} = {dflt}\nelif {var} is False:\n    {var} = {{}}", sv.node)
+        d1 = find_under(ctx, sv, f"{var} = $$d", [(f"{var} is True", True)])
+        d2 = find_under(ctx, sv, f"{var} = $$d", [(f"{var} is False", True)])
+        ok = None
+        if len(d1) == 1 and len(d2) == 1:
+            ok = norm(d1[0][1]["$$d"]) in (dflt, dflt + ".copy()", f"dict({dflt})") and norm(d2[0][1]["$$d"]) in ("{}", "dict()", "None")
+            others = [n_ for n_, _e in find(f"{var} = $$d", sv.node) if n_ is not d1[0][0] and n_ is not d2[0][0]]
+            ok = ok and not others
         O(["C05"], sv, f"{var}: True -> class default, False -> off, dict -> as given", ok, "option normalisation changed")
-    O(["C05", "C12"], sv, "user metadata goes into the header", has(f"{hd}.update(meta)", sv.node), "save(meta=) must be stored")
-    doc = one("$doc = {'meta': $$h, 'nodes': $$n}", sv.node)
-    ok = doc is not None and norm(doc[1]["$$h"]) == hd and has(f"json.dump({doc[1]['$doc']}, target, indent=$_, separators=$_)", sv.node)
-    O(["C05", "C12"], sv, "the document {'meta': header, 'nodes': [...]} is dumped to the target stream", ok)
+    upd = find_under(ctx, sv, f"{hd}.update(meta)", [])
+    O(["C05", "C12"], sv, "user metadata goes into the header", len(upd) == 1 and {t_ for t_ in cond_texts(path_conds(ctx, sv, upd[0][0])) if "meta" in t_} <= {"meta", "not meta is None"} if upd else False, "save(meta=) must be stored")
     dumps = [c for c in env.calls_in[sv] if norm(c.func) == "json.dump"]
+    ok = None
+    if len(dumps) == 1 and len(dumps[0].args) >= 2:
+        docv = resolve_expr(ctx, sv, dumps[0], dumps[0].args[0], keep=[hd])
+        ok = isinstance(docv, ast.Dict) and {norm(k): norm(v) for k, v in zip(docv.keys, docv.values)}.get("'meta'") == hd and "'nodes'" in [norm(k) for k in docv.keys] \
+            and norm(dumps[0].args[1]) == "target"
+        if ok:
+            nodes_v = [v for k, v in zip(docv.keys, docv.values) if norm(k) == "'nodes'"][0]
+            ok = len(calls) == 1 and (norm(nodes_v) == f"list({norm(calls[0])})" or _in(calls[0], nodes_v) or norm(calls[0]) in norm(nodes_v))
+    O(["C05", "C12"], sv, "the document {'meta': header, 'nodes': [...]} is dumped to the target stream", ok)
     ok = len(dumps) == 1 and {k.arg for k in dumps[0].keywords} <= {"indent", "separators", "ensure_ascii"} and not any(
         k.arg == "ensure_ascii" and norm(k.value) == "False" for k in dumps[0].keywords)
     O(["C05", "C19", "C12"], sv, "json.dump keeps the default ASCII-safe escaping (path and stream targets behave alike)", ok,
       "ensure_ascii=False makes the result depend on the target stream's encoding (lone surrogates from os.fsdecode fail for path targets only)")
     # ------------------------------------------------------------------ load
     ld = m.func("Tree.load")
-    rz = [n for n in iter_own(ld.node) if isinstance(n, ast.If) and any(isinstance(x, ast.Raise) for x in n.body)]
-    ok = False
-    if rz:
-        t = norm(rz[0].test)
-        o = one("$o = json.load(target)", ld.node)
-        ov = o[1]["$o"] if o else "obj"
-        need = [f"isinstance({ov}, dict)", f"'meta' not in {ov}", f"'nodes' not in {ov}", f"'$generator' not in {ov}['meta']", "'nutree/' not in"]
-        ok = all(x in t for x in need) and isinstance(rz[0].test, ast.BoolOp) and isinstance(rz[0].test.op, ast.Or)
-    O(["C12"], ld, "load() rejects JSON without the nutree header", ok, "non-dict documents, missing meta/nodes/$generator or a foreign generator must be refused", rz[0] if rz else None)
-    O(["C05", "C12"], ld, "load() hands the stored header back through file_meta", has("file_meta.update($o['meta'])", ld.node), "file metadata must be returned")
-    inv = one("$inv = {$v: $k for $k, $v in $km.items()}", ld.node)
-    ok = inv is not None and has("$km = $o['meta'].get('$key_map', {})", ld.node, {"$km": inv[1]["$km"]})
-    O(["C05", "C12"], ld, "the key map is read from the header and inverted", ok, "short keys must be mapped back to long keys")
-    vm = one("$vm = $o['meta'].get('$value_map', {})", ld.node)
-    un = [c for c in env.calls_in[ld] if norm(c.func).endswith("_uncompress_entry")]
-    fl = [c for c in env.calls_in[ld] if norm(c.func).endswith("_from_list")]
-    ok = inv is not None and vm is not None and len(un) == 1 and len(fl) == 1 and un[0].lineno < fl[0].lineno         and [norm(a) for a in un[0].args][1:] == [inv[1]["$inv"], vm[1]["$vm"]]
-    O(["C05", "C12"], ld, "entries are expanded with the inverted key map and the header's value map before nodes are built", ok,
-      "compressed entries would reach the mapper unexpanded")
-    ok = len(fl) == 1 and any(k.arg == "mapper" and norm(k.value) == "mapper" for k in fl[0].keywords) and has("$o['nodes']", ld.node)
-    O(["C05", "C12"], ld, "the node list is built with the caller's mapper", ok)
+    o = one("$o = json.load(target)", ld.node)
+    ov = o[1]["$o"] if o else None
+    rz = [c for c in exit_cases(ctx, ld, ("raise",))]
+    ok = None
+    if ov is not None and rz:
+        # every way to get past the refusal(s) has checked all five facts
+        fl_ = [c for c in env.calls_in[ld] if norm(c.func).endswith("_from_list")]
+        if len(fl_) == 1:
+            known = cond_texts(path_conds(ctx, ld, fl_[0]))
+            need = {f"isinstance({ov}, dict)", f"'meta' in {ov}", f"'nodes' in {ov}", f"'$generator' in {ov}['meta']"}
+            gen_ok = any(t.startswith("'nutree/' in") and "$generator" in t for t in known)
+            ok = need <= known and gen_ok
+    O(["C12"], ld, "load() rejects JSON without the nutree header", ok, "non-dict documents, missing meta/nodes/$generator or a foreign generator must be refused", rz[0].stmt if rz else None)
+    if ov is not None:
+        ups = [c for c in env.calls_in[ld] if norm(c.func) == "file_meta.update"]
+        ok = None if not ups else any(RN(ld, c, c.args[0], keep=[ov]) == f"{ov}['meta']" for c in ups if c.args)
+        if not ups:
+            ok = False
+        O(["C05", "C12"], ld, "load() hands the stored header back through file_meta", ok, "file metadata must be returned")
+        un = [c for c in env.calls_in[ld] if norm(c.func).endswith("_uncompress_entry")]
+        fl = [c for c in env.calls_in[ld] if norm(c.func).endswith("_from_list")]
+        ok = None
+        if len(un) == 1 and len(un[0].args) == 3:
+            km = RN(ld, un[0], un[0].args[1], keep=[ov])
+            vm = RN(ld, un[0], un[0].args[2], keep=[ov])
+            import re as _re
+
+            km_n = _re.sub(r"\b[a-z_]\w*\b(?= for | in |:|,| \})", lambda mo: mo.group(0), km)
+            ok_k = match(f"{{$v: $k for $k, $v in {ov}['meta'].get('$key_map', {{}}).items()}}", resolve_expr(ctx, ld, un[0], un[0].args[1], keep=[ov])) is not None
+            ok_v = vm == f"{ov}['meta'].get('$value_map', {{}})"
+            O(["C05", "C12"], ld, "the key map is read from the header and inverted", ok_k, "short keys must be mapped back to long keys")
+            ok = ok_k and ok_v and len(fl) == 1 and not_after(ctx, ld, un[0], fl[0])
+        O(["C05", "C12"], ld, "entries are expanded with the inverted key map and the header's value map before nodes are built", ok,
+          "compressed entries would reach the mapper unexpanded")
+        ok = None
+        if len(fl) == 1:
+            ok = any(k.arg == "mapper" and norm(k.value) == "mapper" for k in fl[0].keywords) and bool(fl[0].args) and RN(ld, fl[0], fl[0].args[0], keep=[ov]) == f"{ov}['nodes']"
+        O(["C05", "C12"], ld, "the node list is built with the caller's mapper", ok)
     # ---- compress / uncompress mirrored
-    for q, mapname, vm_key_is_mapped in (("Node._compress_entry", "key_map", False), ("Tree._uncompress_entry", "inverse_key_map", True)):
+    for q, vm_key_is_mapped in (("Node._compress_entry", False), ("Tree._uncompress_entry", True)):
         f = m.func(q)
-        mapname = f.positional_params()[2] if len(f.positional_params()) > 2 else mapname
-        vmname = f.positional_params()[3] if len(f.positional_params()) > 3 else "value_map"
-        dname = f.positional_params()[1]
+        pp = f.positional_params()
+        dname, mapname, vmname = pp[1], pp[2], pp[3]
         lps = [n for n in iter_own(f.node) if isinstance(n, ast.For) and isinstance(n.target, ast.Tuple) and len(n.target.elts) == 2]
         if len(lps) != 1:
-            raise AnalysisError(f"{q}: item loop not recognised")
+            for lab in ("no early exit that depends on only one of the two maps", "iterates a copy of the items while renaming keys",
+                        "a mapped key replaces the entry (data[new] = data.pop(old)); unmapped keys stay", "values are translated through value_map under the long key"):
+                O(["C05", "C12"], f, f"{q}: {lab}", None, "item loop not recognised")
+            continue
         lp = lps[0]
         kv, vv = norm(lp.target.elts[0]), norm(lp.target.elts[1])
-        early = [n for n in iter_own(f.node) if isinstance(n, ast.Return) and n.lineno < lp.lineno]
-        ok_e = all(isinstance(m.parent_of(r_), ast.If) and norm(m.parent_of(r_).test) == f"isinstance({dname}, str)" for r_ in early)
-        O(["C05", "C12"], f, f"{q}: no early exit that depends on only one of the two maps", ok_e,
-          "key map and value map are independent: with key_map off and a value map in use the values must still be translated")
+        outer = [t for t in cond_texts(path_conds(ctx, f, lp)) if mapname in t or vmname in t]
+        O(["C05", "C12"], f, f"{q}: no early exit that depends on only one of the two maps", not outer,
+          f"{outer}: key map and value map are independent: with key_map off and a value map in use the values must still be translated")
         okcopy = match(f"list({dname}.items())", lp.iter) is not None or match(f"tuple({dname}.items())", lp.iter) is not None
         O(["C05", "C12"], f, f"{q}: iterates a copy of the items while renaming keys", okcopy, "renaming keys changes the dict during iteration", lp)
-        mp_ = one(f"$mk = {mapname}[{kv}]", lp)
-        ok = mp_ is not None
-        mv = mp_[1]["$mk"] if ok else "?"
-        ok = ok and has(f"{dname}[{mv}] = {dname}.pop({kv})", lp) and has(f"{mv} = {kv}", lp) and has(f"{kv} in {mapname}", lp)
+        # key renaming: data[map[key]] = data.pop(key) under `key in map`
+        ren = find(f"{dname}[$$nk] = {dname}.pop({kv})", lp)
+        ok = None
+        newkey_under_map = None
+        if len(ren) == 1:
+            nk = ren[0][1]["$$nk"]
+            nkv = [norm(v_) for v_ in reaching_values(ctx, f, ren[0][0], nk)]
+            ok = nkv == [f"{mapname}[{kv}]"] and any(p_ and norm(a_) == f"{kv} in {mapname}" for a_, p_ in path_conds(ctx, f, ren[0][0]))
+            newkey_under_map = nk
+        elif not ren and not find(f"{dname}.pop($$x)", lp):
+            ok = False
         O(["C05", "C12"], f, f"{q}: a mapped key replaces the entry (data[new] = data.pop(old)); unmapped keys stay", ok, "keys must be renamed exactly as the map declares", lp)
-        want_key = mv if vm_key_is_mapped else kv
-        vms = find(f"{dname}[{mv}] = {vmname}[{want_key}][{vv}]", lp)
-        ok = len(vms) == 1
-        if ok:
-            p_ = m.parent_of(vms[0][0])
-            ok = isinstance(p_, ast.If) and has(f"{want_key} in {vmname}", p_.test)
+        # value translation
+        vms = find(f"{dname}[$$dk] = {vmname}[$$vk][{vv}]", lp)
+        ok = None
+        if len(vms) == 1:
+            dk, vk = vms[0][1]["$$dk"], vms[0][1]["$$vk"]
+            # dk: the key the value now lives under (new key if renamed, else the old one); vk: the *long* key name
+            dvals = sorted(norm(v_) for v_ in reaching_values(ctx, f, vms[0][0], dk))
+            ok = dvals == sorted([f"{mapname}[{kv}]", kv])
+            if vm_key_is_mapped:
+                ok = ok and sorted(norm(v_) for v_ in reaching_values(ctx, f, vms[0][0], vk)) == dvals
+            else:
+                ok = ok and norm(vk) == kv
+            test_key = norm(vk)
+            ok = ok and any(p_ and norm(a_) == f"{test_key} in {vmname}" for a_, p_ in path_conds(ctx, f, vms[0][0]))
+        elif not vms and not any(vmname in norm(x) for x in ast.walk(lp) if isinstance(x, ast.Subscript)):
+            ok = False
         O(["C05", "C12"], f, f"{q}: values are translated through value_map under the long key", ok,
           "value_map is keyed by the unmapped (long) key name on both sides (as documented); writer and reader must mirror", lp)
     # ---- call_mapper: only None means "keep the dict"
     cmf = m.func("call_mapper")
     fn, _nd, dt = cmf.positional_params()[:3]
-    r_ = one(f"$r = {fn}($$a, {dt})", cmf.node)
-    ok = r_ is not None and has(f"if {fn} is None:\n    return {dt}", cmf.node) and has(f"if $r is None:\n    return {dt}", cmf.node, {"$r": r_[1]["$r"]}) \
-        and match("return $r", cmf.body[-1], {"$r": r_[1]["$r"]}) is not None
+    cs = exit_cases(ctx, cmf, ("return",))
+    ok = None
+    calls_fn = [c for c in env.calls_in[cmf] if norm(c.func) == fn]
+    if len(calls_fn) == 1 and cs:
+        ok = True
+        for c in cs:
+            if c.value is None:
+                ok = False
+                continue
+            vals = reaching_values(ctx, cmf, c.stmt, c.value)
+            ts = cond_texts(c.conds)
+            if norm(c.value) == dt:
+                # the raw dict only when there is no mapper or it returned None
+                if not (f"{fn} is None" in ts or any(t_.endswith(" is None") and not t_.startswith("not ") and t_ != f"{fn} is None" for t_ in ts)):
+                    ok = False
+            elif any(v_ is calls_fn[0] for v_ in vals):
+                pass
+            else:
+                ok = False
     O(["C05", "C14", "C17", "C12"], cmf, "call_mapper: the mapper's result replaces the dict unless it is None (falsy results are values)", ok,
       "`res or data` would replace a falsy data object (0, empty container) by the raw entry dict")
     # ---- default mappers accept every key combination the writers emit for plain string entries
@@ -393,19 +497,21 @@ def fmt(ctx: Ctx) -> List[Ob]:
           f"a string node with a custom data_id is written with {nkeys} keys; the default mapper must not refuse the file the tree wrote itself")
     # ---- zip streams
     oc = m.func("open_as_compressed_output_stream")
-    ifs = [n for n in oc.body if isinstance(n, ast.If)]
-    ok = len(ifs) == 1 and match("compression is False", ifs[0].test) is not None
+    plain = [y for y in iter_own(oc.node) if isinstance(y, ast.Yield)]
+    tests = [a_ for y in plain for a_, p_ in path_conds(ctx, oc, y) if "compression" in norm(a_)]
+    ok = None if not tests else all(norm(t_) == "compression is False" for t_ in tests)
     O(["C05"], oc, "only `compression is False` writes plain JSON (0 == ZIP_STORED still zips)", ok, "a truthiness test would treat zipfile.ZIP_STORED (0) as 'no compression'")
-    ys = find("yield $w", oc.node)
-    ok = False
-    for y, e_ in ys:
-        st_ = m.parent_of(y)
-        blk = m.parent_of(st_)
-        body = getattr(blk, "body", [])
-        if st_ in body:
-            i = body.index(st_)
-            if i + 1 < len(body) and match("$w.flush()", body[i + 1], e_) is not None and has("$w = io.TextIOWrapper($$f, encoding=$$e)", oc.node, e_):
-                ok = True
+    ok = None
+    wraps = find("io.TextIOWrapper($$f, encoding=$$e)", oc.node)
+    if wraps:
+        ok = False
+        for y in plain:
+            if y.value is None:
+                continue
+            vals = reaching_values(ctx, oc, _stmt_of(m, y), y.value)
+            if any(v_ is wraps[0][0] for v_ in vals):
+                fl_ = find(f"{norm(y.value)}.flush()", oc.node)
+                ok = bool(fl_) and all(not_after(ctx, oc, y, x[0]) for x in fl_)
     O(["C05"], oc, "the text wrapper is flushed before the zip member closes", ok, "buffered JSON would be lost: truncated file")
     zf = [c for c in env.calls_in[oc] if norm(c.func) == "zipfile.ZipFile"]
     ok = len(zf) == 1 and any(k.arg == "compression" and norm(k.value) == "compression" for k in zf[0].keywords)
@@ -434,61 +540,96 @@ def fmt(ctx: Ctx) -> List[Ob]:
     # ---- TypedTree.save: kind value map
     ts = m.func("TypedTree.save")
     ups = find("$vm.update({'kind': $$l})", ts.node) + find("$vm['kind'] = $$l", ts.node)
-    ok = len(ups) == 1
-    if ok:
-        p_ = m.parent_of(ups[0][0])
-        while p_ is not None and not isinstance(p_, ast.If):
-            p_ = m.parent_of(p_)
-        ok = isinstance(p_, ast.If) and has("'kind' not in $vm", p_.test, {"$vm": ups[0][1]["$vm"]})
+    ok = None
+    if len(ups) == 1:
+        vmn = ups[0][1]["$vm"]
+        ok = any(p_ is False and norm(a_) == f"'kind' in {vmn}" for a_, p_ in path_conds(ctx, ts, ups[0][0]))
     O(["C05"], ts, "typed save adds the list of kinds to the value map unless the caller supplied one", ok,
       "kind indices written to the entries must refer to a list stored in the header")
     loads = [x for x in ast.walk(ts.node) if isinstance(x, ast.Attribute) and x.attr in ("DEFAULT_VALUE_MAP", "DEFAULT_KEY_MAP")]
-    ok = all(isinstance(m.parent_of(x), ast.Attribute) and m.parent_of(x).attr == "copy" for x in loads) and bool(loads)
+    ok = None if not loads else all((isinstance(m.parent_of(x), ast.Attribute) and m.parent_of(x).attr == "copy") or (
+        isinstance(m.parent_of(x), ast.Call) and norm(m.parent_of(x).func) in ("dict", "copy.copy", "copy.deepcopy")) for x in loads)
     O(["C05"], ts, "the class default map is copied before the kind list is added", ok, "updating the class attribute leaks one tree's kinds into every later save")
-    cnt = [lp for lp in ast.walk(ts.node) if isinstance(lp, ast.For) and has("$n.kind", lp.body)]
-    ok = len(cnt) == 1 and norm(cnt[0].iter) in ("self", "self.iterator()", "self._root", "self.system_root")
+    ok = None
+    if len(ups) == 1:
+        # the list stored under 'kind' is derived from a walk over all nodes of the tree
+        src_loops = [lp_ for lp_ in ast.walk(ts.node) if isinstance(lp_, (ast.For, ast.comprehension)) and any(
+            isinstance(x, ast.Attribute) and x.attr in ("kind", "_kind") and isinstance(x.value, ast.Name) and x.value.id in [t_.id for t_ in ast.walk(lp_.target) if isinstance(t_, ast.Name)]
+            for x in ast.walk(lp_ if isinstance(lp_, ast.For) else m.parent_of(lp_)))]
+        if src_loops:
+            ok = all(norm(lp_.iter) in ("self", "self.iterator()", "self._root", "self.system_root", "self._root.iterator()") for lp_ in src_loops)
     O(["C05"], ts, "the kind list is collected from all nodes of the tree", ok, "a kind missing from the list cannot be encoded")
     # ---- dict form: recursion in order
     td, fd = m.func("Node.to_dict"), m.func("Node.from_dict")
-    lps = [n for n in iter_own(td.node) if isinstance(n, ast.For) and norm(n.iter) in ("self._children", "self.children")]
-    ok = len(lps) == 1 and len(lps[0].body) == 1
-    if ok:
-        e = match("$acc.append($c.to_dict(mapper=mapper))", lps[0].body[0])
-        ok = e is not None and e["$c"] == norm(lps[0].target)
-        if ok:
-            ok = any(isinstance(st_, ast.Assign) and "res['children']" in [norm(t) for t in st_.targets] and e["$acc"] in [norm(t) for t in st_.targets]
-                     for st_ in ast.walk(td.node)) or has(f"$r['children'] = {e['$acc']}", td.node)
+    recs = [c for c in env.calls_in[td] if isinstance(c.func, ast.Attribute) and c.func.attr == "to_dict"]
+    ok = None
+    if len(recs) == 1:
+        c = recs[0]
+        holder = m.parent_of(c)
+        lp_ = holder
+        while lp_ is not None and not isinstance(lp_, (ast.For, ast.ListComp)):
+            lp_ = m.parent_of(lp_)
+        if isinstance(lp_, ast.For):
+            it, tv = lp_.iter, norm(lp_.target)
+        elif isinstance(lp_, ast.ListComp):
+            it, tv = lp_.generators[0].iter, norm(lp_.generators[0].target)
+        else:
+            it, tv = None, None
+        if it is not None:
+            ok = norm(it) in ("self._children", "self.children") and norm(c.func.value) == tv and any(k.arg == "mapper" and norm(k.value) == "mapper" for k in c.keywords)
+            # the collected list ends up under 'children'
+            ok = ok and any(isinstance(x, ast.Subscript) and isinstance(x.ctx, ast.Store) and norm(x.slice) == "'children'" for x in ast.walk(td.node))
     O(["C14"], td, "to_dict nests the children's dicts in child order", ok, "the nested form mirrors the tree")
-    rr = one("$r = call_mapper(mapper, self, $r)", td.node)
-    O(["C14"], td, "to_dict uses the dict returned by the mapper (a mapper may return a new dict)", rr is not None and any(
-        isinstance(n, ast.Return) and n.value is not None and norm(n.value) == rr[1]["$r"] for n in iter_own(td.node)) if rr else False,
+    mc = [c for c in env.calls_in[td] if norm(c.func) == "call_mapper"]
+    ok = None
+    if len(mc) == 1:
+        # every returned dict is the mapper's result (or derived from it), not the dict built before the mapper ran
+        rets = [c for c in exit_cases(ctx, td, ("return",)) if c.value is not None]
+        ok = bool(rets) and all(any(v_ is mc[0] for v_ in reaching_values(ctx, td, c.stmt, c.value)) for c in rets)
+    O(["C14"], td, "to_dict uses the dict returned by the mapper (a mapper may return a new dict)", ok,
       "a serialize mapper that returns a new dict instead of patching the passed one would be ignored")
-    cid = [n for n in iter_own(td.node) if isinstance(n, ast.If) and match("self._data_id != hash(self._data)", n.test) is not None]
-    ok = len(cid) == 1 and match("$r['data_id'] = self._data_id", cid[0].body[0]) is not None
+    ids = find("$$r['data_id'] = self._data_id", td.node)
+    ok = None
+    if len(ids) == 1:
+        ts_ = cond_texts(path_conds(ctx, td, ids[0][0]))
+        ok = ts_ in ({"not (self._data_id == hash(self._data))"}, {"not (hash(self._data) == self._data_id)"})
+    elif not ids:
+        lit = [n for n in ast.walk(td.node) if isinstance(n, ast.Dict) and "'data_id'" in [norm(k) for k in n.keys if k is not None]]
+        ok = None if lit else False
     O(["C14"], td, "to_dict stores data_id whenever it is not hash(data) (falsy ids included)", ok, "custom ids must survive")
     lps = [n for n in iter_own(fd.node) if isinstance(n, ast.For) and norm(n.iter) == fd.positional_params()[1] and isinstance(n.target, ast.Name)]
-    ok = len(lps) == 1
-    if ok:
+    ok = None
+    if len(lps) == 1:
         lp = lps[0]
         iv = lp.target.id
         adds = [c for c in ast.walk(lp) if isinstance(c, ast.Call) and isinstance(c.func, ast.Attribute) and c.func.attr in ("append_child", "add_child", "add")
                 and norm(c.func.value) == "self"]
         recs = [c for c in ast.walk(lp) if isinstance(c, ast.Call) and isinstance(c.func, ast.Attribute) and c.func.attr == "from_dict"]
-        ok = len(adds) == 1 and len(recs) == 1 and any(k.arg == "data_id" and norm(k.value) == f"{iv}.get('data_id')" for k in adds[0].keywords)
-        ok = ok and not any(k.arg == "before" for k in adds[0].keywords) and any(k.arg == "mapper" and norm(k.value) == "mapper" for k in recs[0].keywords)
-        if ok:
-            tgt = [st_ for st_ in ast.walk(lp) if isinstance(st_, ast.Assign) and st_.value is adds[0]]
-            ok = len(tgt) == 1 and norm(recs[0].func.value) == norm(tgt[0].targets[0])
-            src = [st_ for st_ in ast.walk(lp) if isinstance(st_, ast.Assign) and norm(st_.targets[0]) == norm(recs[0].args[0])]
-            ok = ok and len(src) == 1 and norm(src[0].value) == f"{iv}.get('children')"
+        if len(adds) == 1 and len(recs) == 1:
+            kw = {k.arg: RN(fd, adds[0], k.value) for k in adds[0].keywords}
+            ok = kw.get("data_id") == f"{iv}.get('data_id')" and "before" not in kw and any(k.arg == "mapper" and norm(k.value) == "mapper" for k in recs[0].keywords)
+            # data_id is read after the mapper ran
+            mcs = [c for c in ast.walk(lp) if isinstance(c, ast.Call) and norm(c.func) == "call_mapper"]
+            gets = [x for x in ast.walk(lp) if isinstance(x, ast.Call) and norm(x) == f"{iv}.get('data_id')"]
+            ok = ok and all(not_after(ctx, fd, mc_, g_) for mc_ in mcs for g_ in gets)
+            # the recursion runs on the child just created, with the item's children
+            ok = ok and any(v_ is adds[0] for v_ in reaching_values(ctx, fd, recs[0], recs[0].func.value)) and bool(recs[0].args) and RN(fd, recs[0], recs[0].args[0]) == f"{iv}.get('children')"
     pops = [c for c in ast.walk(fd.node) if isinstance(c, ast.Call) and isinstance(c.func, ast.Attribute) and c.func.attr in ("pop", "popitem", "clear", "update", "setdefault")
             and norm(c.func.value) in ([norm(lps[0].target)] if lps else [])]
     O(["C14"], fd, "from_dict only reads the caller's structure (no pop/update on the items)", not pops,
-      "" if not pops else f"`{norm(pops[0])}` strips the caller's data: a second from_dict() on the same structure builds a different tree")
+      f"`{norm(pops[0])}` strips the caller's data: a second from_dict() on the same structure builds a different tree" if pops else "")
     O(["C14"], fd, "from_dict appends one child per item in order, passing its data_id (read after the mapper ran), and recurses into its 'children' on that child", ok,
       "shape, order, custom ids and nesting must be rebuilt; a deserialize mapper may supply item['data_id']")
     tl = m.func("Tree.to_dict_list")
-    lps = [n for n in ast.walk(tl.node) if isinstance(n, ast.For)]
-    ok = len(lps) == 1 and "._root" in norm(lps[0].iter) and len(lps[0].body) == 1 and match(f"$acc.append({norm(lps[0].target)}.to_dict(mapper=mapper))", lps[0].body[0]) is not None
+    recs = [c for c in ast.walk(tl.node) if isinstance(c, ast.Call) and isinstance(c.func, ast.Attribute) and c.func.attr == "to_dict"]
+    ok = None
+    if len(recs) == 1:
+        lp_ = m.parent_of(recs[0])
+        while lp_ is not None and not isinstance(lp_, (ast.For, ast.ListComp)):
+            lp_ = m.parent_of(lp_)
+        it, tv = (lp_.iter, norm(lp_.target)) if isinstance(lp_, ast.For) else ((lp_.generators[0].iter, norm(lp_.generators[0].target)) if isinstance(lp_, ast.ListComp) else (None, None))
+        if it is not None:
+            ok = RN(tl, recs[0], it) in ("self._root.children", "self._root._children", "self.children", "self.system_root.children") and norm(recs[0].func.value) == tv \
+                and any(k.arg == "mapper" and norm(k.value) == "mapper" for k in recs[0].keywords)
     O(["C14"], tl, "to_dict_list collects one dict per top-level node", ok)
     return obs
